@@ -447,6 +447,10 @@ def singleton_cases():
     scal_full = {"$N": 20, "$F": 2.5, "$B": True, "$T": "txt", "$L": [4, 5, 6], "$O": ("some", 9)}
     add(scal_main, [None, scal_full, dict(reversed(list(scal_full.items()))), {"$N": -3, "$T": ""}, {"$O": None, "$L": [], "$B": False, "$F": -0.25},
                     {"$N": 9223372036854775807, "$F": 1024.0}])
+    # zero values of the remaining kinds (range, any-object, list of lists, option of a list, object with such fields)
+    add("$R = range;\n$Y = { ? };\n$LL = [[int]];\n$OL = ?[str];\n$W = { r: range, y: { ? }, o: ?int, f: float };\n"
+        "fn main() { println($R, $R.start, $R.end); for i in $R { println(\"in R\", i); } println($Y, $Y.keys().len(), $LL, $LL.len(), $OL, $OL.is_none()); "
+        "println($W.r, $W.y, $W.o, $W.f); for j in $W.r { println(\"in W.r\", j); } }", [None, {}])
     # extraction in one and in several functions; callers pass only the normal parameters
     add(cfg_decl + "fn f(c: $Cfg) { println(c.n, c.s, c.b, c.l); } fn main() { f(); f(); }", cfg_hosts)
     add(cfg_decl + "fn f(c: $Cfg) -> int { c.n } fn g(d: $Cfg) -> str { d.s } fn h(e: $Cfg, k: int) -> int { e.l.len() + k } "
